@@ -68,7 +68,7 @@ D = {
             "the speller produces exactly the notation family of the statement (no other liberties); heading spelling only when root names have no edge blanks",
             PBT + ": metamorphic relation between two generated spellings of one forest"),
     "C16": ("exploration",
-            "The binary built from /repo/cmd/gtree runs in a jail; the library runs in-process on the same input in an identical jail: stdout equal (multiset of lines with --massive), filesystem snapshots equal, exit 0 iff (valid command line and file opened and library nil and stdout accepted every byte), diagnostic on stderr, never a crash; 'template | output' equals the README tree. Also --massive-timeout 1ns (library under an expired deadline), --watch (without a file, with an unopenable file, and following a file through one change), stdin /dev/null, stdout a pipe without a reader, mkdir on a file system that runs full. Documents starting with a byte order mark; --target-dir ~ / ~/out.",
+            "The binary built from /repo/cmd/gtree runs in a jail; the library runs in-process on the same input in an identical jail: stdout equal (multiset of lines with --massive), filesystem snapshots equal, exit 0 iff (valid command line and file opened and library nil and stdout accepted every byte), diagnostic on stderr, never a crash; 'template | output' equals the README tree. Also --massive-timeout 1ns (library under an expired deadline), --watch (without a file, with an unopenable file, and following a file through one change), stdin /dev/null, stdout a pipe without a reader, mkdir on a file system that runs full. Documents starting with a byte order mark; --target-dir ~ / ~/out. Part signal: runs interrupted by SIGINT / SIGTERM while their input is still open must not exit 0.",
             "the mapping from flags to library options is the oracle's reading of the documented flags; extensions that the flag parser cannot express (blank edges, commas) are not generated; a closed stdout is accepted as /dev/null (Go runtime re-opens it); the web subcommand is excluded",
             PBT + ": differential testing CLI vs library over generated command lines, documents, stdout states and directory states"),
     "C17": ("exploration",
